@@ -656,6 +656,7 @@ class VpdAta(VpdBase):
         v["_serial"] = gen.byte_string(rng, 20, "text")
         v["_fw"] = gen.byte_string(rng, 8, "text")
         v["_model"] = gen.byte_string(rng, 40, "text")
+        v["_word0"] = rng.choice([0x0040, 0x8580, 0x0C5A, 0x848A, rng.getrandbits(16)])  # general configuration: ATA disk, ATAPI, ...
         return v
 
     def encode(self, v):
@@ -670,6 +671,7 @@ class VpdAta(VpdBase):
         b[48] = s["sector_count"]
         b[56] = 0xEC
         ident = bytearray(512)
+        ident[0], ident[1] = v["_word0"] & 0xFF, v["_word0"] >> 8  # IDENTIFY words are little-endian
         ident[20:40] = v["_serial"]  # words 10-19
         ident[46:54] = v["_fw"]  # words 23-26
         ident[54:94] = v["_model"]  # words 27-46
@@ -680,7 +682,8 @@ class VpdAta(VpdBase):
         e = {k: v[k] for k in ("peripheral_qualifier", "peripheral_device_type", "page_code", "sat_vendor_identification",
                                "sat_product_identification", "sat_product_rev_lvl")}
         e["signature"] = dict(v["_sig"])
-        e["identify"] = {"serial_number": v["_serial"], "firmware_rev": v["_fw"], "model_number": v["_model"]}
+        e["identify"] = {"serial_number": v["_serial"], "firmware_rev": v["_fw"], "model_number": v["_model"],
+                         "general_config": {"ata_device": v["_word0"] >> 15}}
         return e
 
 
@@ -1370,8 +1373,8 @@ def all_formats():
 FORMATS = {f.name: f for f in all_formats()}
 REFERENCE_GAPS = [
     "SOP TransportID routing-id position (library's position used; only size/protocol nibble checked)",
-    "mode pages other than 02h, 0Ah, 0Ah/01h, 1Dh (the library decodes no others)",
-    "multi-page MODE SENSE responses (library returns the first page only; single-page requests generated)",
+    "fields of mode pages other than 02h, 0Ah, 0Ah/01h, 1Dh (the library has no tables for them; such pages are generated and must be stepped over)",
+    "ATA Information VPD page: of IDENTIFY word 0 only bit 15 (ATA device) is referenced; the library's 'respose_incomplete' mask is not judged",
 ]
 
 
